@@ -119,6 +119,13 @@ CHECKS = {
         "astropy.io.fits / astropy.table trusted; documented card-capacity and long-string format limits excluded from the domain.",
         "DESIGN.md §4 C16",
     ),
+    "C17": (
+        "fault_enumeration",
+        "Exhaustive enumeration of every stage boundary of generated runs (Hypothesis generates the configurations; all boundaries of each are enumerated) with three injected fault kinds: failing intermediate write, raising stage entry point, process death (os._exit in a spawned child) right after write k; a spy around astropy's Table.write snapshots the file after every completed write; oracle = hand-written stage model of the documented procedure plus the un-faulted run with the same seed",
+        "For every configuration explored, every boundary k is visited: each snapshot is readable, contains exactly the model's first k stores and equals the final table on them bit for bit; after a fault the error propagates and the file equals snapshot k (absent for k=0); write_stages=False writes nothing and leaves existing files alone. Configurations are sampled, boundaries are exhaustive.",
+        "crash during a write is outside the statement; the stage model must follow the documented procedure; FITS cannot carry NaN header values (skipped).",
+        "DESIGN.md §4 C17",
+    ),
     "C18": (
         "exploration",
         "Hypothesis property-based testing: byte-level write/read round trips in HDF5 and FITS over generated grids, slice and row-interpolation checks against own scalar references; exhaustive enumeration of every node of the shipped tables against the samplers' preconditions",
